@@ -376,6 +376,8 @@ func c02CtxClass(n int) string {
 		return "ctx:0"
 	case n == 1:
 		return "ctx:1"
+	case n == 17:
+		return "ctx:17"
 	case n == 255:
 		return "ctx:255"
 	case n > 255:
